@@ -793,6 +793,9 @@ func ruleC03(r *Report) {
 		if y.audHookFail != "" {
 			a.Row("C03.table", "the application's audience validator fails", B.And(B.Not(a.V(y.audHookNil)), B.Not(a.V(y.audHookFail))))
 			a.Accept("C03.accept", "the application's audience validator accepts", with(g, y.audHookNil, false, y.audHookFail, true, y.arEmpty, false, y.audEq, false), m.fieldWords)
+		} else if at := hookCallSite(p, a.Fn, "ValidateAudienceRestriction"); at != nil {
+			// the hook is called but the decision does not depend on what it returns (its error is dropped or shadowed)
+			r.Bad("C03.table", fmt.Sprintf("%s: reject when the application's audience validator fails", a.name), p.InstrPos(at), "ValidateAudienceRestriction is called, but no accept/reject outcome depends on its result: an assertion the application's validator refuses is accepted")
 		}
 	}
 	for _, tm := range y.times {
@@ -940,6 +943,8 @@ func ruleC04(r *Report) {
 		t.Accept("C04.accept", "IdP-initiated login is allowed", with(g, x.allow, true, x.irt, false), m.fieldWords)
 		if x.hookFail != "" {
 			t.Row("C04.table", "the application's request-ID validator fails", B.And(B.Not(V(x.hookNil)), B.Not(V(x.hookFail))))
+		} else if at := hookCallSite(p, t.Fn, "ValidateRequestID"); at != nil {
+			r.Bad("C04.table", fmt.Sprintf("%s: reject when the application's request-ID validator fails", t.name), p.InstrPos(at), "ValidateRequestID is called, but no accept/reject outcome depends on its result: a response the application's validator refuses is accepted")
 		}
 	}
 	t.Unknown("C04.uses", []string{"InResponseTo", "ids"})
@@ -1239,4 +1244,25 @@ func checkMiddlewareIDs(r *Report, m *spModel, rule string) {
 	if n == 0 {
 		r.Undecided(rule, "samlsp caller of ParseResponse", "-", "not found")
 	}
+}
+
+// hookCallSite: a call through the named func-typed field of the ServiceProvider in fn or the unexported helpers it is
+// split into (nil if the hook is never called there).
+func hookCallSite(p *Prog, fn *ssa.Function, field string) ssa.Instruction {
+	for _, f := range helperRegion(p, fn, 3) {
+		for _, b := range f.Blocks {
+			for _, in := range b.Instrs {
+				c, ok := in.(*ssa.Call)
+				if !ok || c.Call.StaticCallee() != nil || c.Call.IsInvoke() {
+					continue
+				}
+				if ld, ok := c.Call.Value.(*ssa.UnOp); ok {
+					if fa, ok := ld.X.(*ssa.FieldAddr); ok && fieldName(fa.X.Type(), fa.Field) == field && typeIs(fa.X.Type(), modPath, "ServiceProvider") {
+						return in
+					}
+				}
+			}
+		}
+	}
+	return nil
 }
